@@ -459,7 +459,26 @@ def call_method(m: Any, recv: V, name: str, args: list[V], kwargs: dict[str, V],
         if name == "endswith" and isinstance(args[0], VStr):
             return VBool(z3.SuffixOf(args[0].term, recv.term))
         if name == "join":
-            raise EngineError("str.join (needs an area hook)")
+            v = args[0]
+            items = None
+            if isinstance(v, VTuple):
+                items = v.items
+            else:
+                sv = m.seq_value(v) if not isinstance(v, VSeq) else v
+                if isinstance(v, VHeapRef) and m.ctx.cell(v.addr).value is None:
+                    return VStr("")
+                if sv is not None:
+                    flat = _concrete_units(z3.simplify(sv.term))
+                    if flat is not None:
+                        items = [sv.sort.elem.wrap(t) for t in flat]
+            if items is None or not all(isinstance(i, VStr) for i in items):
+                raise EngineError("str.join over a symbolic-length sequence (needs an area hook)")
+            out = []
+            for k, it in enumerate(items):
+                if k:
+                    out.append(recv.term)
+                out.append(it.term)
+            return VStr(out[0] if len(out) == 1 else z3.Concat(*out)) if out else VStr("")
         if name == "encode":
             return recv
     if isinstance(recv, VRec) and recv.sort.pycls:
@@ -478,9 +497,34 @@ def call_method(m: Any, recv: V, name: str, args: list[V], kwargs: dict[str, V],
     raise EngineError(f"{m.contract.key}: method {name} of {recv!r} not modelled")
 
 
+def _concrete_units(t: Any):
+    """[t1, .., tn] if the sequence term is a concatenation of units (statically known length)."""
+    if z3.is_app(t):
+        k = t.decl().kind()
+        if k == z3.Z3_OP_SEQ_EMPTY:
+            return []
+        if k == z3.Z3_OP_SEQ_UNIT:
+            return [t.arg(0)]
+        if k == z3.Z3_OP_SEQ_CONCAT:
+            out = []
+            for c in t.children():
+                sub = _concrete_units(c)
+                if sub is None:
+                    return None
+                out.extend(sub)
+            return out
+    return None
+
+
 def list_method(m: Any, cell: Any, name: str, args: list[V]) -> V:
     from .symex import RaiseSig
 
+    if cell.value is None:  # untyped empty list: typed by the first element
+        if name in ("append", "appendleft") and isinstance(args[0], VTerm):
+            cell.value = seq_of(args[0].sort).empty()
+            cell.extra.pop("untyped", None)
+        else:
+            raise EngineError(f"list method {name} on a list whose element sort is unknown")
     s: VSeq = cell.value
     es = s.sort.elem
     bank = m.ctx.bank
